@@ -45,12 +45,18 @@ func vfGenerate(in input.Input, stub bool) (em skel.Emitted, text string, ok boo
 
 // vfCheckAPI: every selector the generated constructor uses on the runtime
 // exists in the pinned runtime (obligation 3 of DESIGN 3.12).
-func vfCheckAPI(em skel.Emitted) {
+func vfCheckAPI(em skel.Emitted, allowed string) {
 	vfAssert(em.ParseErr == "", "the generated text is syntactically valid Go")
 	// every identifier the file uses is declared in it, imported, predeclared,
 	// or a current-package symbol the configuration names (none in this harness)
 	for _, u := range em.Unresolved {
-		vfAssert(u == "", "the generated code uses no identifier it does not declare: "+u)
+		named := false
+		for _, a := range strings.Fields(allowed) {
+			named = named || a == u
+		}
+		if !named {
+			vfAssert(u == "", "the generated code uses no identifier it does not declare: "+u)
+		}
 	}
 	for _, b := range em.Blocks {
 		for _, c := range b.Calls {
@@ -122,7 +128,32 @@ func VF_C01_api() {
 	// import forms: "pkg" is either the import path itself or an alias of
 	// meta.imports for a longer path (then used several times: value, type,
 	// !value argument, decorator); a second service adds a quoted full path
-	switch vfChoice("imports", 3) {
+	allowed := ""
+	switch vfChoice("imports", 5) {
+	case 3:
+		// everything in the current package: no import at all
+		lc, lv, lt, lp := "NewX", "X{}", "*X", "&X{}"
+		ls := in.Services["svc"]
+		switch {
+		case ls.Constructor != nil:
+			ls.Constructor = &lc
+			ls.Args = []any{5, "@dep", "%p%", "$gontainer", "!value V", "!tagged other"}
+		case ls.Value != nil && ls.Type != nil:
+			ls.Value, ls.Type = &lp, &lt
+		case ls.Value != nil:
+			ls.Value = &lv
+		case ls.Type != nil:
+			ls.Type = &lt
+		}
+		in.Services["svc"] = ls
+		in.Decorators[0].Decorator = "Decorate"
+		allowed = "NewX X V Decorate"
+	case 4:
+		// a constructor service whose declared type comes from a package used
+		// nowhere else, without a getter: that package must not stay imported
+		tt := `*"example.com/types/only".T`
+		tc := "pkg.NewT"
+		in.Services["typed"] = input.Service{Constructor: &tc, Type: &tt, Tags: []input.Tag{{Name: "other"}}}
 	case 1:
 		in.Meta.Imports = map[string]string{"pkg": "example.com/some/pkg"}
 	case 2:
@@ -133,9 +164,9 @@ func VF_C01_api() {
 	em, text, ok := vfGenerate(in, vfBool("stub"))
 	vfAssert(ok, "a valid configuration is accepted")
 	if ok {
-		vfCheckAPI(em)
+		vfCheckAPI(em, allowed)
 		// the whole file against go/types and the pinned runtime (user packages are fixtures)
-		for _, e := range vfTypeErrors(text, "") {
+		for _, e := range vfTypeErrors(text, allowed) {
 			vfAssert(e == "", "the generated file type-checks against the pinned runtime: "+e)
 		}
 	}
